@@ -7,6 +7,7 @@ package vsched
 
 import (
 	"fmt"
+	"runtime"
 	"runtime/debug"
 	"strings"
 	"unsafe"
@@ -433,6 +434,19 @@ func Point(op *Op) {
 //go:norace
 func Yield(kind string) { Point(&Op{Kind: kind}) }
 
+// Gosched is runtime.Gosched under the scheduler: a point at which the caller steps back behind every other
+// runnable thread. Continuing with the caller is possible (it is the last option), switching away from it is the
+// default and costs no deviation: a loop that polls with Gosched lets the others run, as the real scheduler does.
+//
+//go:norace
+func Gosched() {
+	if current == nil || current.cur == nil {
+		runtime.Gosched()
+		return
+	}
+	Point(&Op{Kind: "gosched"})
+}
+
 // ChooseEnv resolves an environment choice with n options (inline, no park).
 //
 //go:norace
@@ -593,7 +607,16 @@ func Run(chooser Chooser, o RunOpts, main func()) (res Result) {
 		}
 		// canonical order: running thread first if still enabled, then ascending ids
 		runOpt := -1
-		if last != nil {
+		if last != nil && last.pending != nil && last.pending.Kind == "gosched" && !last.done {
+			// the yielding thread goes to the end of the list
+			for i, t := range enabled {
+				if t == last {
+					copy(enabled[i:], enabled[i+1:])
+					enabled[len(enabled)-1] = last
+					break
+				}
+			}
+		} else if last != nil {
 			for i, t := range enabled {
 				if t == last {
 					copy(enabled[1:i+1], enabled[0:i])
